@@ -459,8 +459,8 @@ pub fn c10_blackbox(run: &mut Run, lost: &[Pos]) {
     let res = run_parallel(8, n_b, |j| {
         let mut acc = Acc::new();
         let mut rng = Rng::stream(seed, 0xC10_8000 + j as u64);
-        let base = &lost[j % lost.len()];
-        let n = [2usize, 3, 4, 6][j / lost.len() % 4];
+        let n = [2usize, 3, 256, 4, 257, 6][j % 6];
+        let base = &lost[(j / 6) % lost.len()];
         let cyc = match find_cycle(base, &mut rng) {
             Some(c) => c,
             None => return acc,
